@@ -112,26 +112,72 @@ def site_of(P, path):
     return 'Spectrum.from_phi[%dD,%s]' % (P, path)
 
 
+def _arg_forms(inp, xxs):
+    """ns / grids / proportions in the container and number types named by inp['argform'] (default: lists, floats)."""
+    form = inp.get('argform')
+    ns = list(inp['ns'])
+    grids = [x for x in xxs]
+    if form == 'tuple':
+        ns, grids = tuple(ns), tuple(grids)
+    elif form == 'array':
+        ns = np.array(ns)
+    return form, ns, grids
+
+
 def call_from_phi(inp, phi, xxs):
     """Run Spectrum.from_phi exactly as described by the record's 'in' part."""
     from dadi import Spectrum
+    form, ns, grids = _arg_forms(inp, xxs)
     kw = {'mask_corners': inp['mc']}
     if inp['admix']:
-        kw['admix_props'] = tuple(tuple(float(common.frac(v)) for v in row) for row in inp['admix'])
+        if form == 'ints':       # lists of Python ints, as in the docstring's ((1,0,0),(0,1,0),(0,0,1))
+            kw['admix_props'] = [[int(common.frac(v)) for v in row] for row in inp['admix']]
+        else:
+            kw['admix_props'] = tuple(tuple(float(common.frac(v)) for v in row) for row in inp['admix'])
     if inp['het']:
         kw['het_ascertained'] = HET[inp['het']]
     if inp['force']:
         kw['force_direct'] = True
-    return Spectrum.from_phi(phi, list(inp['ns']), [x for x in xxs], **kw)
+    return Spectrum.from_phi(phi, ns, grids, **kw)
 
 
 def call_inbreeding(inp, phi, xxs):
     from dadi import Spectrum
+    form, ns, grids = _arg_forms(inp, xxs)
     kw = {'mask_corners': inp['mc']}
     if inp['het']:
         kw['het_ascertained'] = HET[inp['het']]
     Fs = [float(common.frac(v)) for v in inp['Fs']]
-    return Spectrum.from_phi_inbreeding(phi, list(inp['ns']), [x for x in xxs], Fs, list(inp['ploidys']), **kw)
+    pl = list(inp['ploidys'])
+    if form == 'tuple':
+        Fs, pl = tuple(Fs), tuple(pl)
+    elif form == 'array':
+        Fs, pl = np.array(Fs), np.array(pl)
+    return Spectrum.from_phi_inbreeding(phi, ns, grids, Fs, pl, **kw)
+
+
+def relayout(phi, layout):
+    """The same density values in another memory layout."""
+    if layout == 'F':
+        return np.asfortranarray(phi)
+    if layout == 'T':            # a transposed view of a C-contiguous array
+        return np.ascontiguousarray(phi.T).T
+    if layout == 'slice':        # every second element of a larger array, along every axis
+        big = np.full([2 * n for n in phi.shape], -7.0)
+        view = big[tuple(slice(None, None, 2) for _ in phi.shape)]
+        view[...] = phi
+        return view
+    if layout == 'int':          # integer dtype (values are rounded first by the caller)
+        return np.asarray(phi).astype(np.int64)
+    return phi
+
+
+def regrid(x, layout):
+    if layout == 'slice':
+        big = np.full(2 * len(x), -7.0)
+        big[::2] = x
+        return big[::2]
+    return x
 
 
 def from_record(inp):
@@ -177,7 +223,7 @@ def records(ctx):
         return [rng.randint(1, hi) for _ in range(P)]
 
     # ---- 1. default (analytic) path, 1-5 D ----
-    plan = {1: 10 if q else 40, 2: 8 if q else 30, 3: 5 if q else 20, 4: 3 if q else 10, 5: 2 if q else 5}
+    plan = {1: 8 if q else 40, 2: 6 if q else 30, 3: 4 if q else 20, 4: 2 if q else 10, 5: 1 if q else 5}
     for P, cnt in plan.items():
         for k in range(cnt):
             L = rng.randint(3, LMAX[P])
@@ -248,7 +294,7 @@ def records(ctx):
     # ---- 3. admix_props, 2-4 D ----
     ADM_N = {2: 6 if q else 12, 3: 3 if q else 5, 4: 2 if q else 3}
     ADM_L = {2: 7 if q else 12, 3: 4 if q else 6, 4: 3 if q else 4}
-    plan = {2: 8 if q else 30, 3: 4 if q else 16, 4: 3 if q else 6}
+    plan = {2: 6 if q else 30, 3: 3 if q else 16, 4: 2 if q else 6}
     for P, cnt in plan.items():
         for k in range(cnt):
             xxs = [make_grid(rng, rng.randint(3, ADM_L[P])) for _ in range(P)] if rng.random() < 0.5 else grids_for(P, rng.randint(3, ADM_L[P]))
@@ -268,7 +314,7 @@ def records(ctx):
     # ---- 4. inbreeding, 1-3 D ----
     INB_IND = {1: 6 if q else 10, 2: 3 if q else 5, 3: 2 if q else 2}    # individuals per population
     INB_L = {1: 12 if q else 24, 2: 7 if q else 10, 3: 4 if q else 6}
-    plan = {1: 10 if q else 36, 2: 7 if q else 24, 3: 3 if q else 10}
+    plan = {1: 8 if q else 36, 2: 5 if q else 24, 3: 2 if q else 10}
 
     def rand_F():
         u = rng.random()
@@ -423,7 +469,200 @@ def records(ctx):
             return {'s1': enc(s1), 's2': enc(s2), 't': enc(t)}
         add('inb_limit', {'phi': enc_phi(phi), 'grids': [rats(x) for x in xxs], 'ns': ns, 'ploidys': pl, 'F1': rat(F1), 'F2': rat(F2)},
             limit(), 'Spectrum.from_phi_inbreeding[F->0]', 5)
+    boundary_records(ctx, add, base_in)
     return balance(recs)
+
+
+def boundary_records(ctx, add, base_in):
+    """Deterministic coverage of the end points and named options of the property's domain (quantifier audit):
+    sample sizes 1 and 40 in every argument position, two-point grids, every grid family, every end-point
+    perturbation on every path, vertex / permutation / identity / float admixture matrices, F at both ends of [0,1),
+    every ploidy, memory layouts and container types of the arguments, zero density, project to m = n and m = 1,
+    marginalise every population."""
+    from dadi import Numerics
+    q = ctx.quick
+    rng = random.Random(ctx.seed + 505)
+
+    def grids(P, L, kind='uniform', perturb='', lens=None):
+        if lens:
+            return [make_grid(rng, l, kind, perturb) for l in lens]
+        g = make_grid(rng, L, kind, perturb)
+        return [g.copy() for _ in range(P)]
+
+    def emit(path, ns, xxs, phi=None, mc=True, admix=(), het=0, layout=None, argform=None, tag=None, cost=30):
+        P = len(ns)
+        if phi is None:
+            phi = make_phi(rng, [len(x) for x in xxs], xxs, rng.choice(['uniform', 'smooth', 'wide']))
+        if layout == 'int':
+            phi = np.round(phi * 3)
+        phi_call = relayout(phi, layout)
+        xxs_call = [regrid(x, layout) for x in xxs]
+        inp = base_in(phi, ns, xxs, mc=mc, admix=admix, het=het, force=(path == 'direct' and het == 0))
+        if layout:
+            inp['layout'] = layout
+        if argform:
+            inp['argform'] = argform
+        add('from_phi', inp, observe(lambda: call_from_phi(inp, phi_call, xxs_call)), site_of(P, tag or path), cost)
+
+    def emit_inb(ns, pl, Fs, xxs, phi=None, mc=True, het=0, layout=None, argform=None, tag=None, cost=40):
+        P = len(ns)
+        if phi is None:
+            phi = make_phi(rng, [len(x) for x in xxs], xxs, rng.choice(['uniform', 'smooth']))
+        inp = base_in(phi, ns, xxs, mc=mc, het=het)
+        inp.update({'Fs': rats(Fs), 'ploidys': list(pl)})
+        if layout:
+            inp['layout'] = layout
+        if argform:
+            inp['argform'] = argform
+        phi_call = relayout(phi, layout)
+        xxs_call = [regrid(x, layout) for x in xxs]
+        add('from_phi_inbreeding', inp, observe(lambda: call_inbreeding(inp, phi_call, xxs_call)),
+            tag or 'Spectrum.from_phi_inbreeding[%dD]' % P, cost)
+
+    # -- sample sizes: 1 everywhere; 40 (the largest of the statement) in every argument position
+    for P in (1, 2, 3, 4, 5):
+        emit('analytic', [1] * P, grids(P, 3 if P > 3 else 4, 'default'), mc=False)
+        if P < 5:
+            emit('direct', [1] * P, grids(P, 3 if P > 3 else 4, 'default'), mc=True)
+        positions = range(P) if not q else [(ctx.seed + P) % P]
+        for a in (range(P) if P <= 2 else positions):
+            ns = [1 + (j + a) % 2 for j in range(P)]
+            ns[a] = 40
+            # quick: grid points with short binary expansions in 3-5 D keep the exact arithmetic small
+            kind40 = 'uniform' if (q and P >= 3) else 'default'
+            emit('analytic', ns, grids(P, {1: 9, 2: 5, 3: 3 if q else 4, 4: 3, 5: 3}[P], kind40), mc=bool(a % 2), cost=400)
+            if P <= 3:
+                emit('direct', ns, grids(P, {1: 9, 2: 5, 3: 3}[P], lens=None if P == 1 else [3 + (j + a) % 2 for j in range(P)]), cost=300)
+    emit('direct', [40], grids(1, 6, 'exp'), het=1, tag='het', cost=200)
+    emit('admix', [40, 1], grids(2, 3), admix=((0.75, 0.25), (0.5, 0.5)), cost=300)
+    emit('admix', [2, 40], grids(2, 3), admix=((0.75, 0.25), (0.5, 0.5)), cost=300)
+    # -- grids: two points (the smallest grid), every grid family, different lengths per population
+    for P in (1, 2, 3):
+        emit('analytic', [3, 2, 1][:P], grids(P, 2), mc=False)
+        emit('direct', [3, 2, 1][:P], grids(P, 2), het=P, tag='het')
+    emit('admix', [2, 3], grids(2, 2), admix=((0.5, 0.5), (0.25, 0.75)))
+    for kind, L in (('uniform', 7), ('default', 7), ('exp', 7), ('random', 7), ('quadratic', 21)):
+        emit('analytic', [5], grids(1, L, kind))
+        emit('direct', [4], grids(1, L, kind))
+    emit('direct', [2, 4], grids(2, 0, lens=[3, 6]))
+    emit('direct', [3, 1, 2], grids(3, 0, lens=[4, 2, 3]), het=3, tag='het')
+    emit('direct', [1, 2, 1, 2], grids(4, 0, lens=[2, 3, 4, 3]), het=2, tag='het')
+    emit('admix', [2, 1, 2], grids(3, 0, lens=[3, 4, 2]), admix=((0.5, 0.25, 0.25), (0.0, 1.0, 0.0), (0.125, 0.125, 0.75)))
+    emit('admix', [1, 2, 1, 1], grids(4, 0, lens=[2, 3, 2, 3]), admix=((0.5, 0.0, 0.25, 0.25), (0.0, 1.0, 0.0, 0.0), (0.125, 0.125, 0.5, 0.25), (0.25, 0.25, 0.25, 0.25)), cost=200)
+    # the analytic rule takes its own grid for every population after the second
+    g2 = make_grid(rng, 4, 'default', '')
+    emit('analytic', [2, 3, 4], [g2.copy(), g2.copy(), make_grid(rng, 6, 'exp', '')])
+    emit('analytic', [2, 1, 3, 2], [g2.copy(), g2.copy(), make_grid(rng, 3, 'uniform', ''), make_grid(rng, 5, 'random', '')], cost=100)
+    emit('analytic', [1, 2, 1, 2, 3], [g2.copy(), g2.copy(), make_grid(rng, 3, 'uniform', ''), make_grid(rng, 2, 'uniform', ''), make_grid(rng, 5, 'exp', '')], cost=200)
+    # -- end points moved by ~1e-16, every variant on every path
+    perts = ['lo-', 'lo+', 'hi+', 'hi-', 'both']
+    for j, pert in enumerate(perts):
+        emit('analytic', [6], grids(1, 5, 'default', pert), mc=False)
+        emit('analytic', [3, 2], grids(2, 4, 'default', pert))
+        emit('direct', [5], grids(1, 5, 'default', pert))
+        emit('direct', [2, 3], grids(2, 4, 'uniform', pert), het=1 + j % 2, tag='het')
+        emit('admix', [2, 2], grids(2, 3, 'default', pert), admix=((0.5, 0.5), (0.0, 1.0)))
+        emit_inb([4], [2], [0.3], grids(1, 5, 'default', pert), het=j % 2)
+        if not q or pert == 'both':
+            emit('analytic', [2, 1, 2], grids(3, 3, 'default', pert))
+            emit('analytic', [1, 2, 1, 2], grids(4, 3, 'default', pert), cost=100)
+            emit('analytic', [1, 1, 2, 1, 1], grids(5, 3, 'default', pert), cost=200)
+            emit('direct', [2, 1, 2], grids(3, 3, 'default', pert))
+            emit('direct', [1, 1, 2, 1], grids(4, 3, 'default', pert), cost=100)
+            emit('admix', [1, 2, 1], grids(3, 3, 'default', pert), admix=((0.5, 0.5, 0.0), (0.0, 0.5, 0.5), (0.25, 0.25, 0.5)))
+            emit_inb([2, 3], [2, 3], [0.2, 0.6], grids(2, 4, 'default', pert))
+            emit_inb([2, 2, 3], [2, 2, 3], [0.2, 0.6, 0.4], grids(3, 3, 'default', pert), cost=100)
+    # -- admixture matrices: identity (floats / Python ints in lists), permutations, all rows on one vertex, rounded float rows
+    for P in (2, 3, 4):
+        L = {2: 4, 3: 3, 4: 3}[P]
+        ns = [2, 1, 2, 1][:P]
+        ident = tuple(tuple(1.0 if k == d else 0.0 for k in range(P)) for d in range(P))
+        emit('admix', ns, grids(P, L, 'default'), admix=ident, argform='ints')
+        emit('admix', ns, grids(P, L, 'default'), admix=tuple(ident[(d + 1) % P] for d in range(P)))          # cyclic permutation
+        emit('admix', ns, grids(P, L, 'default'), admix=tuple(ident[P - 1] for d in range(P)), mc=False)        # everyone from the last population
+        w = [[rng.random() for _ in range(P)] for _ in range(P)]
+        rows = []
+        for r in w:
+            r = [v / sum(r) for v in r]
+            r[0] = 1.0 - sum(r[1:])
+            rows.append(tuple(r))
+        emit('admix', ns, grids(P, L, 'default'), admix=tuple(rows))
+    # -- memory layouts and container types of the arguments
+    for layout in ('F', 'T', 'slice', 'int'):
+        emit('analytic', [3, 2], grids(2, 4, 'default'), layout=layout)
+        emit('direct', [2, 3], grids(2, 0, lens=[3, 4]), layout=layout, het=2 if layout == 'T' else 0, tag='het' if layout == 'T' else None)
+        emit('analytic', [2, 1, 2], grids(3, 3, 'default'), layout=layout)
+        if layout != 'int':
+            emit('admix', [2, 1, 2], grids(3, 0, lens=[3, 2, 4]), layout=layout, admix=((0.5, 0.5, 0.0), (0.0, 0.5, 0.5), (0.25, 0.25, 0.5)))
+            emit_inb([2, 3], [2, 3], [0.3, 0.5], grids(2, 0, lens=[3, 4]), layout=layout)
+        if not q:
+            emit('analytic', [1, 2, 1, 2], grids(4, 3, 'default'), layout=layout, cost=100)
+            emit('analytic', [1, 1, 2, 1, 2], grids(5, 3, 'default'), layout=layout, cost=200)
+            emit('direct', [1, 2, 1, 2], grids(4, 3, 'default'), layout=layout, cost=100)
+    emit('analytic', [4], grids(1, 5, 'default'), layout='slice')
+    emit('direct', [4], grids(1, 5, 'default'), layout='slice', het=1, tag='het')
+    for form in ('tuple', 'array'):
+        emit('analytic', [2, 3], grids(2, 4), argform=form)
+        emit('direct', [2, 3, 1], grids(3, 3), argform=form)
+        emit_inb([4, 3], [2, 3], [0.25, 0.5], grids(2, 3), argform=form)
+    # -- the zero density, and a density concentrated on one face
+    emit('analytic', [3, 2], grids(2, 4), phi=np.zeros((4, 4)))
+    emit('direct', [3], grids(1, 4), phi=np.zeros(4))
+    face = np.zeros((4, 4)); face[0, :] = [1.0, 2.0, 0.5, 0.25]
+    emit('analytic', [3, 3], grids(2, 4, 'default'), phi=face, mc=False)
+    emit('direct', [3, 3], grids(2, 4, 'default'), phi=face.T.copy(), mc=False)
+    # -- inbreeding: F at both ends of [0,1) and in between, every ploidy, one individual, n = 40, distinct ploidy / F per population
+    for F in (1e-3, 0.5, 0.999, 1 - 1e-12, float(np.nextafter(1.0, 0.0))):
+        emit_inb([4], [2], [F], grids(1, 5, 'default'), mc=False)
+        emit_inb([3, 2], [3, 2], [F, 0.4], grids(2, 3, 'default'))
+    for p in range(2, 9):
+        emit_inb([p], [p], [0.35], grids(1, 4, 'default'), het=p % 2)          # one individual
+        if not q:
+            emit_inb([2, p], [2, p], [0.6, 0.2], grids(2, 3, 'default'))
+    emit_inb([40], [2], [0.3125 if q else 0.3], grids(1, 3 if q else 4, 'uniform' if q else 'default'), cost=600)
+    emit_inb([40], [8], [0.625 if q else 0.6], grids(1, 3 if q else 4, 'uniform' if q else 'default'), cost=300)
+    if not q:
+        emit_inb([40], [5], [0.1], grids(1, 4, 'default'), cost=400)
+        emit_inb([40, 2], [4, 2], [0.2, 0.7], grids(2, 3, 'default'), cost=600)
+        emit_inb([2, 40], [2, 4], [0.2, 0.7], grids(2, 3, 'default'), cost=600)
+    emit_inb([4, 6], [2, 3], [0.15, 0.7], grids(2, 0, lens=[3, 5]), het=2)
+    emit_inb([2, 3, 4], [2, 3, 4], [0.1, 0.5, 0.8], grids(3, 0, lens=[3, 2, 4]), het=3, cost=100)
+    emit_inb([2, 2, 2, 2], [2, 2, 2, 2], [0.1, 0.5, 0.8, 0.3], grids(4, 2), cost=1)      # only 1-3 populations are provided for
+    emit_inb([4], [2], [0.0], grids(1, 4), tag='Spectrum.from_phi_inbreeding[F=0]')
+    emit_inb([2, 4, 3], [2, 4, 3], [0.0, 0.0, 0.0], grids(3, 3), het=2, tag='Spectrum.from_phi_inbreeding[F=0]')
+    # -- BetaBinomConvolution at the parameters the sampling code uses at the end points of the grid, float / int counts
+    for p, m, F in ((2, 3, 0.3), (8, 1, 0.9), (3, 2.0, 1e-3)):
+        c = (1.0 - F) / F
+        for alpha, beta in ((1.0e-20 * c, (1.0 - 1.0e-20) * c), ((1.0 - 1.0e-20) * c, 1.0e-20 * c)):
+            try:
+                out = {'row': rats([Numerics.BetaBinomConvolution(i, m, alpha, beta, ploidy=p) for i in range(int(m) * p + 1)])}
+            except Exception as e:
+                out = {'raised': type(e).__name__}
+            add('betabinom', {'m': int(m), 'ploidy': p, 'alpha': rat(alpha), 'beta': rat(beta)}, out, 'Numerics.BetaBinomConvolution', 10)
+    # -- sample then project to m = n (nothing to do) and to m = 1; marginalise every population in turn
+    for kind in ('analytic', 'direct', 'admix'):
+        P = 2 if kind == 'admix' else 3
+        xxs = grids(P, 3, 'default')
+        phi = make_phi(rng, [3] * P, xxs, 'uniform')
+        ns = [3, 2, 4][:P]
+        A = ((0.75, 0.25), (0.5, 0.5)) if kind == 'admix' else ()
+        for ms in (list(ns), [1] * P):
+            inp = base_in(phi, ns, xxs, mc=False, admix=A, force=(kind == 'direct'))
+            inp.update({'kind': kind, 'ms': ms, 'Fs': ['0'] * P, 'ploidys': [1] * P})
+            add('sample_project', inp, observe(lambda: call_from_phi(inp, phi, xxs).project(ms)), 'Spectrum.from_phi[%s]+project' % kind, 30)
+        if kind != 'admix':
+            for a in range(P):
+                inp = base_in(phi, ns, xxs, mc=False, force=(kind == 'direct'))
+                inp.update({'kind': kind, 'ms': ns, 'over': a + 1, 'Fs': ['0'] * P, 'ploidys': [1] * P})
+                add('sample_marginalize', inp, observe(lambda: call_from_phi(inp, phi, xxs).marginalize([a], mask_corners=False)),
+                    'Spectrum.from_phi[%s]+marginalize' % kind, 30)
+    xxs = grids(3, 3, 'default')
+    phi = make_phi(rng, [3] * 3, xxs, 'uniform')
+    for a in range(3):
+        inp = base_in(phi, [2, 3, 4], xxs, mc=False)
+        inp.update({'kind': 'inbreeding', 'ms': [2, 3, 4], 'over': a + 1, 'Fs': rats([0.2, 0.5, 0.7]), 'ploidys': [2, 3, 2]})
+        add('sample_marginalize', inp, observe(lambda: call_inbreeding(inp, phi, xxs).marginalize([a], mask_corners=False)),
+            'Spectrum.from_phi[inbreeding]+marginalize', 60)
 
 
 def balance(recs, bins=8):
